@@ -120,9 +120,8 @@ func runC11Case(t *testing.T, c C11Case) (out c11Outcome) {
 				Spec: bindv1alpha2.BindRequestSpec{PodName: shape.pod, SelectedNode: shape.node, SelectedGPUGroups: shape.groups, ReceivedResourceType: shape.rtype,
 					ReceivedGPU: &bindv1alpha2.ReceivedGPU{Count: max(1, len(shape.groups)), Portion: shape.portion}, BackoffLimit: ptr.To(int32(5))},
 			}
-			var bopts []string
+			bopts := []string{"k8s-plugins"}
 			if shape.dra {
-				bopts = []string{"dra"}
 				br.Spec.ResourceClaimAllocations = []bindv1alpha2.ResourceClaimAllocation{{Name: "acc", Allocation: buildAllocation(shape.node, []string{draDeviceName(0)})}}
 				if shape.draStale {
 					c := api.Claim(ownClaimName(shape.pod, ClaimRef{Ref: "acc"})).DeepCopy()
